@@ -182,7 +182,16 @@ def hash256(b):
 # ---------------------------------------------------------------- small curves (prime order, p = 3 mod 4)
 
 
+_SC = {}
+
+
 def small_curves(limit=6):
+    if limit not in _SC:
+        _SC[limit] = _small_curves(limit)
+    return _SC[limit]
+
+
+def _small_curves(limit=6):
     """Find curves y^2 = x^3 + 7 over F_p with p = 3 (mod 4) and prime group order, with a generator."""
     out = []
     p = 11
